@@ -2597,11 +2597,31 @@ class C03(Oracle):
     def gen(self, rng):
         g = gen_env_cases(rng, p_random=0.35)
         sg = gen_step_cases(rng, valid=True)
+        dg = C10().gen(rng)  # door / box / key focused steps: the in-place changes of object nodes
         k = 0
         while True:
             k += 1
             if k % 3 == 0:
-                c = next(sg)
+                if k % 4 == 0:
+                    # a step that changes an object node in place: a closed door (or a locked one with its
+                    # key in hand) right in front of the agent, ACTUATE
+                    h, w = rng.randint(1, 4), rng.randint(2, 5)
+                    y, x = rng.randrange(h), rng.randrange(w - 1)
+                    col = rng.randrange(5)
+                    status = rng.choice([1, 2])
+                    held = f'K{col}' if status == 2 and rng.random() < 0.8 else rng.choice(['N', 'K1', 'W'])
+                    cells = {(y, x + 1): f'D{status}{col}'}
+                    if rng.random() < 0.5:
+                        cells[(rng.randrange(h), rng.randrange(w))] = rng.choice(['XK1', f'D1{col}', 'E0', 'O'])
+                        cells[(y, x + 1)] = f'D{status}{col}'
+                    if (y, x) in cells:
+                        del cells[(y, x)]
+                    st = gen.mk_state(h, w, cells, y, x, O.R, held)
+                    c = {'kind': 'heapstep', 'atoms': rng.choice([[4], [0, 1, 4], [0, 1, 4, 2], [4, 5], [1, 4, 0]]), 'state': enc_state(st),
+                         'action': 6, 'answers': [0] * 4}
+                    yield c
+                    continue
+                c = dict(next(dg if k % 2 == 0 else sg))
                 c['kind'] = 'heapstep'
                 yield c
             else:
@@ -2676,12 +2696,30 @@ class C03(Oracle):
             a = ACTIONS[c['action']]
             where = f'chain {[TRANS_NAMES[i] for i in c["atoms"]]} {c["state"]} action={a.name}'
             chain = trf.factory('chain', transition_functions=[trf.factory(TRANS_NAMES[i]) for i in c['atoms']])
+            # the input has a past: it has been hashed and compared before (values a cache might keep)
+            try:
+                _ = (hash(s), hash(s.grid), hash(s.agent), s == fast_copy(s), [hash(o) for row in s.grid.objects for o in row])
+            except TypeError:
+                pass
             try:
                 s2 = self._pure_call(out, 'step', where, [s], lambda: trf.transition_with_copy(chain, s, a, rng=ScriptRng(c['answers'])))
             except Exception:
                 return out
             self._no_sharing(out, 'step', where, s, s2)
             self._copy(out, where, s)
+            # the same question again, and the answer built from scratch: equal, and hashing alike
+            try:
+                s2b = trf.transition_with_copy(chain, s, a, rng=ScriptRng(c['answers']))
+                fresh = state_from_str(enc_state(s2))
+                for tag, x in (('asked again', s2b), ('built from scratch', fresh)):
+                    if enc_state(x) != enc_state(s2):
+                        out.append(V('history/step-answer-changed', f'{where} ({tag})'))
+                    elif not (x == s2) or not (s2 == x) or not (x.grid == s2.grid):
+                        out.append(V('history/equal-answers-compare-unequal', f'{where} ({tag})'))
+                    elif hash(x) != hash(s2) or hash(x.grid) != hash(s2.grid) or hash(x.agent) != hash(s2.agent):
+                        out.append(V('history/equal-answers-hash-differently', f'{where} ({tag})'))
+            except TypeError:
+                pass
             return out
         if c['kind'] == 'heapobs':
             s = state_from_str(c['state'])
